@@ -1,7 +1,8 @@
 from os.path import getmtime
 
 from .util import cached_property, Source
-from .nast import extract_scope
+from .nast import extract
+from .scope import SourceScope
 from .compat import iteritems
 from .name import RuntimeName, Object
 
@@ -37,7 +38,10 @@ class SourceModule(Object):
     def scope(self):
         # type: () -> SourceScope
         source = Source(open(self.filename).read(), self.filename)
-        scope = extract_scope(source, self.project)
+        # visible to re-entrant lookups: a cycle of star imports ends here
+        scope = self.__dict__['scope'] = SourceScope(source)
+        extract(source.tree, scope.flow)
+        scope.resolve_star_imports(self.project)
         return scope
 
     @property
